@@ -3,11 +3,11 @@
 import json, subprocess
 
 CHECKS = {
- "C01": ("E1 tcbsim", "exploration", "6 C01",
+ "C01": ("E1 tcbsim + E2 netsim (C01.stack)", "exploration", "6 C01",
    "Seeded search over schedules x segment faults x write/read interleavings on two real Tcb objects; byte-exact prefix invariant after every step, bounded-liveness drain afterwards. Second scenario (C01.stack, engine E2): the same clauses with the real session glue - harness applications directly on Tcp, real TcpSession loop, Tcp::demux, Ipv4, Arp, Pci, Network on virtual time - under unbounded loss, duplication and delays beyond the retransmission timeout, then a fair network: every byte exactly once within a bounded number of retransmission timeouts, then silence on the wire. Sampling, not proof: a clean batch is evidence.",
    "In the E1 scenario the session loop and Tcp::demux table are a small stub mirroring tcp_session.rs/tcp.rs; the C01.stack scenario runs the real ones but cannot read late (the shipped session hands data up eagerly); virtual clock; sample of schedules. A worker that blocks for good (asleep, no CPU time for 30 s) is reported as a deadlock of the code under test.",
    "deterministic simulation: seeded discrete-event schedule/fault search with reference-stream oracle"),
- "C03": ("E1 tcbsim", "exploration", "6 C03",
+ "C03": ("E1 tcbsim + E2 netsim (C03.stack)", "exploration", "6 C03",
    "As C01 plus closes in every state, old duplicate SYNs, RFC 9293 figure-5 transition monitor around every Tcb call, cross-endpoint sequence invariants, data-before-FIN and release-within-bound oracles. Second scenario (C03.stack, engine E2): the opening clauses through the real tcp.rs (Tcp::open, Tcp::listen, Tcp::demux, session table) - 1..6 connections between two machines, a third opened by both sides at once, shared/separate/wildcard listeners, ARP, addresses and ports varying per run, unbounded loss/duplication/delay; every connection is announced to both applications exactly once, nothing is reset, the wire falls silent.",
    "Transition monitor works at Tcb-call granularity (one call may take several diagram edges); stub glue in E1. The shipped session has no close instruction, so the close clauses are decided in E1 only. A simultaneous open whose SYN meets a port that is not open yet is legitimately refused; nothing but safety is asserted about such a connection.",
    "deterministic simulation: seeded schedule/fault search with state-machine monitor and bounded-liveness drain"),
@@ -15,7 +15,7 @@ CHECKS = {
    "Each seeded schedule is executed twice with two ISN pairs (dense around 2^32 and 2^31 wrap points) and the ISN-normalised event traces must be identical; plus direct-drive check of the circular comparison primitives against the mathematical order.",
    "Closed-state RSTs with the literal SEQ=0 are lost in both runs (their effect legitimately depends on ISNs).",
    "deterministic simulation: differential replay of one seeded schedule under shifted ISNs"),
- "C17": ("E1 tcbsim (Byzantine peer)", "exploration", "6 C17",
+ "C17": ("E1 tcbsim (Byzantine peer) + E2 netsim (C17.stack)", "exploration", "6 C17",
    "Forged segments (all 64 flag combinations, seq/ack around window edges, shrinking windows, payloads) injected between legitimate events of seeded schedules; oracles: no Tcb call unwinds, no data beyond any advertised right edge, SND.WND/WL1/WL2 follow RFC 9293 3.10.7.4 for every segment processed on its own, provably unacceptable segments have no immediate effect. Second scenario (C17.stack, engine E2): the C01.stack scenario (real Tcp, TcpSession, Ipv4, Arp, Pci, Network) with a third machine that forges segments from the peer's address and port into established connections - all 64 flag combinations including RST and SYN, any acknowledgment number and window, text, sequence number 2^30 above or below what the victim expects; the streams must still be delivered completely and exactly once, no legitimate endpoint resets, the wire falls silent.",
    "Above-window segments that the stack retains in its reordering queue are treated as delayed arrivals (no assertion on their later effect). The E2 scenario forges only segments that are unacceptable under every reading (2^30 away from the window) and only into connections both applications know to be established; in-window forgeries legitimately change a stream and are left to E1's per-call oracles.",
    "deterministic simulation: seeded fault injection of forged segments into simulated connections"),
@@ -112,7 +112,7 @@ def main():
         "engines": [
             {"name": "E1 tcbsim", "path": "/verif/harness/src/e1.rs", "serves_properties": ["C01", "C03", "C12", "C17"],
              "kind_free_text": "discrete-event simulator over two real Tcb objects: seeded scheduler picks among writes, reads, clock ticks, deliver-any/drop/duplicate, closes, old SYNs, forged segments"},
-            {"name": "E2 netsim", "path": "/verif/harness/src/sim.rs", "serves_properties": ["C02", "C04", "C05", "C06", "C13", "C14", "C15", "C16", "C18", "C19", "C20"],
+            {"name": "E2 netsim", "path": "/verif/harness/src/sim.rs", "serves_properties": ["C01", "C02", "C03", "C04", "C05", "C06", "C13", "C14", "C15", "C16", "C17", "C18", "C19", "C20"],
              "kind_free_text": "the whole real Elvis stack on one thread: tokio current-thread runtime with paused (virtual) clock, seeded task scheduler (poll deferral through the verif spawn shim), seeded per-frame network verdicts (drop/duplicate/delay/corrupt) through the verif frame hook, seeded randomness; worker processes because a panic exits the process"},
             {"name": "E3 fragsim", "path": "/verif/harness/src/e3.rs", "serves_properties": ["C11"],
              "kind_free_text": "discrete-event simulator over the real IPv4 Reassembly: seeded arrival schedules of real fragments with loss/duplication/overlap and a virtual reassembly-timer clock"},
